@@ -187,6 +187,11 @@ MIPS32 = {
                  asm="addiu $t1, $zero, {imm}"),
     "call": dict(b=_wb(0x0C000000) + "00000000", kind="call", sym=(0, 3),
                  asm="jal {t}"),
+    # direct calls that carry a register operand (bgezal $zero / bltzal)
+    "bal": dict(b=_wb(0x04110000) + "00000000", kind="call", sym=(0, 2),
+                asm="bal {t}", patch=False),
+    "bltzal": dict(b=_wb(0x05100000) + "00000000", kind="call", sym=(0, 2),
+                   asm="bltzal $t0, {t}", patch=False),
     "jmp": dict(b=_wb(0x08000000) + "00000000", kind="jmp", sym=(0, 3),
                 asm="j {t}"),
     "icall": dict(b=_wb(0x0320F809) + "00000000", kind="icall",
